@@ -1,7 +1,7 @@
 /-
   Helper lemmas for C01: ParsePGAttribute (catalog.go) on an encoded pg_attribute — the map relation oid ↦ columns it
   builds (grouping, the attnum > 0 filter, the sort by attnum) against the specification's `userAttrs`, for the hinted
-  schema choice and for auto-detection.
+  layout and for the automatic choice between the three layouts (catalog.go:readAttrRows, fixes/cluster/08).
 -/
 import PgVerif.Proofs.ClusterAttrRows
 set_option linter.unusedSimpArgs false
@@ -53,24 +53,25 @@ theorem mapGet_map_sort {β} (f : List β → List β) (hf : f [] = []) (m : Lis
       simp only [map_cons, lookup_cons, this]
       exact ih
 
-def attrInfoOf (ab : AttrRow → UInt8) (a : AttrRow) : AttrInfo := ⟨a.name, (a.typid : Int), a.num, a.len, (ab a).toNat⟩
+/-- the `AttrInfo` ParsePGAttribute builds for a pg_attribute row: `Align` is the row's attalign character -/
+def attrInfoOf (a : AttrRow) : AttrInfo := ⟨a.name, (a.typid : Int), a.num, a.len, (alignByte a).toNat⟩
 
-theorem attrStep_fields (m : List (Nat × List AttrInfo)) (row : Row) (a : AttrRow) (ab : AttrRow → UInt8)
-    (h : AttrFields row a (ab a)) :
-    attrStep m row = if a.relid = 0 ∨ a.num ≤ 0 then m else mapAppend m a.relid (attrInfoOf ab a) := by
+theorem attrStep_fields (m : List (Nat × List AttrInfo)) (row : Row) (a : AttrRow)
+    (h : AttrFields row a) :
+    attrStep m row = if a.relid = 0 ∨ a.num ≤ 0 then m else mapAppend m a.relid (attrInfoOf a) := by
   unfold attrStep
   simp only [h.relid, h.num, h.name, h.typid, h.len, h.align]
   rfl
 
 /-- what the loop of ParsePGAttribute has stored under relation oid `k` -/
-theorem foldl_attrStep_get (rowOf : AttrRow → Row) (ab : AttrRow → UInt8) (as : List AttrRow)
-    (hf : ∀ a ∈ as, AttrFields (rowOf a) a (ab a)) (m : List (Nat × List AttrInfo)) (k : Nat) (hk : 0 < k) :
+theorem foldl_attrStep_get (rowOf : AttrRow → Row) (as : List AttrRow)
+    (hf : ∀ a ∈ as, AttrFields (rowOf a) a) (m : List (Nat × List AttrInfo)) (k : Nat) (hk : 0 < k) :
     (mapGet ((as.map rowOf).foldl attrStep m) k).getD [] =
-      (mapGet m k).getD [] ++ (as.filter fun a => a.relid = k ∧ a.num > 0).map (attrInfoOf ab) := by
+      (mapGet m k).getD [] ++ (as.filter fun a => a.relid = k ∧ a.num > 0).map attrInfoOf := by
   induction as generalizing m with
   | nil => simp
   | cons a as ih =>
-    rw [map_cons, foldl_cons, ih (fun x hx => hf x (by simp [hx])), attrStep_fields m _ a ab (hf a (by simp))]
+    rw [map_cons, foldl_cons, ih (fun x hx => hf x (by simp [hx])), attrStep_fields m _ a (hf a (by simp))]
     by_cases hskip : a.relid = 0 ∨ a.num ≤ 0
     · rw [if_pos hskip]
       have : ¬ (a.relid = k ∧ a.num > 0) := by
@@ -153,11 +154,11 @@ theorem nodup_nums (l : List AttrRow) (k : Nat) (h : (l.map fun a => (a.relid, a
 
 /-- the columns ParsePGAttribute reports for relation `k`: the live pg_attribute rows of `k` with attnum > 0, in
 attnum order -/
-theorem grouped_sorted (ab : AttrRow → UInt8) (live : List AttrRow) (k : Nat)
+theorem grouped_sorted (live : List AttrRow) (k : Nat)
     (hnd : (live.map fun a => (a.relid, a.num)).Nodup) :
-    sortByNum ((live.filter fun a => a.relid = k ∧ a.num > 0).map (attrInfoOf ab)) =
-      (sortAttrs (live.filter fun a => a.relid = k ∧ a.num > 0)).map (attrInfoOf ab) :=
-  sortByNum_map (attrInfoOf ab) (fun _ => rfl) _ (nodup_nums live k hnd)
+    sortByNum ((live.filter fun a => a.relid = k ∧ a.num > 0).map attrInfoOf) =
+      (sortAttrs (live.filter fun a => a.relid = k ∧ a.num > 0)).map attrInfoOf :=
+  sortByNum_map attrInfoOf (fun _ => rfl) _ (nodup_nums live k hnd)
 
 
 
@@ -169,136 +170,281 @@ structure AttHeapWF (l : Layout) (att : HeapOf AttrRow) : Prop where
 
 theorem attrWF_name {a : AttrRow} (h : AttrWF a) : a.name.length ≤ 64 := by have := h.name.2.1; omega
 
-theorem readRows_attr_A (dec : Dec) (hd : CatDec dec) (l : Layout) (hl : l ≠ .v16) (att : HeapOf AttrRow) (hw : AttHeapWF l att) :
-    readRows dec (encHeapOf (pgAttributeCols l) (attrVals l) att) schemaPGAttrV15 true =
-      .ok (att.live.map fun a => toRow (attrRowA dec a)) :=
-  readRows_catalog dec _ _ att schemaPGAttrV15 (fun a => toRow (attrRowA dec a))
-    (fun s hs => attr_WF l s.val s.infomask (attrWF_name (hw.rows s hs).1) (hw.rows s hs).2) hw.fit
-    (fun s hs => attr_decode_A dec hd l hl s.val s.infomask (attrWF_name (hw.rows s hs).1) (hw.rows s hs).2)
+/-- the row a pg_attribute row of layout `l` decodes to under the schema of `l` -/
+def attrRowOf (dec : Dec) (l : Layout) (a : AttrRow) : Row :=
+  match l with
+  | .v16 => toRow (attrRow16 dec a)
+  | .v14 => toRow (attrRow14 dec a)
+  | .v12 => toRow (attrRow12 dec a)
 
-theorem readRows_attr_B (dec : Dec) (hd : CatDec dec) (att : HeapOf AttrRow) (hw : AttHeapWF .v16 att) :
-    readRows dec (encHeapOf (pgAttributeCols .v16) (attrVals .v16) att) schemaPGAttrV16 true =
-      .ok (att.live.map fun a => toRow (attrRowB dec a)) :=
-  readRows_catalog dec _ _ att schemaPGAttrV16 (fun a => toRow (attrRowB dec a))
-    (fun s hs => attr_WF .v16 s.val s.infomask (attrWF_name (hw.rows s hs).1) (hw.rows s hs).2) hw.fit
-    (fun s hs => attr_decode_B dec hd s.val s.infomask (attrWF_name (hw.rows s hs).1) (hw.rows s hs).2)
+/-- the schema of layout `l` -/
+def schemaOf (l : Layout) : List Column :=
+  match l with
+  | .v16 => catSchemaAttr16
+  | .v14 => catSchemaAttr14
+  | .v12 => catSchemaAttr12
 
-theorem readRows_attr_C (dec : Dec) (hd : CatDec dec) (l : Layout) (hl : l ≠ .v16) (att : HeapOf AttrRow) (hw : AttHeapWF l att) :
-    readRows dec (encHeapOf (pgAttributeCols l) (attrVals l) att) schemaPGAttrV16 true =
-      .ok (att.live.map fun a => toRow (attrRowC dec a)) :=
-  readRows_catalog dec _ _ att schemaPGAttrV16 (fun a => toRow (attrRowC dec a))
+theorem fields_of (dec : Dec) (hd : CatDec dec) (l : Layout) (a : AttrRow) (hw : AttrWF a) : AttrFields (attrRowOf dec l a) a := by
+  cases l
+  · exact fields_12 dec hd a hw
+  · exact fields_14 dec hd a hw
+  · exact fields_16 dec hd a hw
+
+/-- **ReadRows on pg_attribute under the schema of its own layout**: one row per live version, in heap order, each with
+every field from its own bytes -/
+theorem readRows_attr_own (dec : Dec) (hd : CatDec dec) (l : Layout) (att : HeapOf AttrRow) (hw : AttHeapWF l att) :
+    readRows dec (encHeapOf (pgAttributeCols l) (attrVals l) att) (schemaOf l) true = .ok (att.live.map (attrRowOf dec l)) := by
+  cases l
+  · exact readRows_catalog dec _ _ att catSchemaAttr12 (fun a => toRow (attrRow12 dec a))
+      (fun s hs => attr_WF .v12 s.val s.infomask (attrWF_name (hw.rows s hs).1) (hw.rows s hs).2) hw.fit
+      (fun s hs => attr_decode_12 dec hd s.val s.infomask (attrWF_name (hw.rows s hs).1) (hw.rows s hs).2)
+  · exact readRows_catalog dec _ _ att catSchemaAttr14 (fun a => toRow (attrRow14 dec a))
+      (fun s hs => attr_WF .v14 s.val s.infomask (attrWF_name (hw.rows s hs).1) (hw.rows s hs).2) hw.fit
+      (fun s hs => attr_decode_14 dec hd s.val s.infomask (attrWF_name (hw.rows s hs).1) (hw.rows s hs).2)
+  · exact readRows_catalog dec _ _ att catSchemaAttr16 (fun a => toRow (attrRow16 dec a))
+      (fun s hs => attr_WF .v16 s.val s.infomask (attrWF_name (hw.rows s hs).1) (hw.rows s hs).2) hw.fit
+      (fun s hs => attr_decode_16 dec hd s.val s.infomask (attrWF_name (hw.rows s hs).1) (hw.rows s hs).2)
+
+/-- the 16 schema on a 12–15 pg_attribute (reading D) -/
+theorem readRows_attr_D (dec : Dec) (hd : CatDec dec) (l : Layout) (hl : l ≠ .v16) (att : HeapOf AttrRow) (hw : AttHeapWF l att) :
+    readRows dec (encHeapOf (pgAttributeCols l) (attrVals l) att) catSchemaAttr16 true =
+      .ok (att.live.map fun a => toRow (attrRowD dec l a)) :=
+  readRows_catalog dec _ _ att catSchemaAttr16 (fun a => toRow (attrRowD dec l a))
     (fun s hs => attr_WF l s.val s.infomask (attrWF_name (hw.rows s hs).1) (hw.rows s hs).2) hw.fit
-    (fun s hs => attr_decode_C dec hd l hl s.val s.infomask (attrWF_name (hw.rows s hs).1) (hw.rows s hs).2)
+    (fun s hs => attr_decode_D dec hd l hl s.val s.infomask (attrWF_name (hw.rows s hs).1) (hw.rows s hs).2)
+
+/-- the 14–15 schema on a 12–13 pg_attribute (reading E) -/
+theorem readRows_attr_E (dec : Dec) (hd : CatDec dec) (att : HeapOf AttrRow) (hw : AttHeapWF .v12 att) :
+    readRows dec (encHeapOf (pgAttributeCols .v12) (attrVals .v12) att) catSchemaAttr14 true =
+      .ok (att.live.map fun a => toRow (attrRowE dec a)) :=
+  readRows_catalog dec _ _ att catSchemaAttr14 (fun a => toRow (attrRowE dec a))
+    (fun s hs => attr_WF .v12 s.val s.infomask (attrWF_name (hw.rows s hs).1) (hw.rows s hs).2) hw.fit
+    (fun s hs => attr_decode_E dec hd s.val s.infomask (attrWF_name (hw.rows s hs).1) (hw.rows s hs).2)
+
+theorem collectM_some_exists {α γ} (f : α → M (Option γ)) (xs : List α) (h : ∀ x ∈ xs, ∃ y, f x = .ok (some y)) :
+    ∃ ys, collectM f xs = .ok ys ∧ ys.length = xs.length := by
+  induction xs with
+  | nil => exact ⟨[], rfl, rfl⟩
+  | cons x xs ih =>
+    obtain ⟨y, hy⟩ := h x (by simp)
+    obtain ⟨ys, hys, hl⟩ := ih (fun z hz => h z (by simp [hz]))
+    refine ⟨y :: ys, ?_, by simp [hl]⟩
+    simp only [collectM, hy, ok_bind, hys, pure_eq_ok]
+
+/-- **any of the three schemas on a pg_attribute of any layout**: ReadRows returns one row per live version (what the rows
+hold is the business of the readings above) -/
+theorem readRows_attr_any (dec : Dec) (hd : CatDec dec) (l : Layout) (att : HeapOf AttrRow) (hw : AttHeapWF l att)
+    (S : List Column) (hne : S ≠ []) (hS : ∀ c ∈ S, catKindM c) :
+    ∃ rows, readRows dec (encHeapOf (pgAttributeCols l) (attrVals l) att) S true = .ok rows ∧ rows.length = att.live.length := by
+  unfold encHeapOf
+  rw [readRows_pages dec _ S true ?_ hw.fit]
+  · have hflat : (att.map fun pg => pg.map fun s => formRow (pgAttributeCols l) (attrVals l s.val) s.infomask).flatten =
+        att.versions.map fun s => formRow (pgAttributeCols l) (attrVals l s.val) s.infomask := by
+      unfold HeapOf.versions
+      rw [map_flatten]
+    rw [hflat, filter_map]
+    obtain ⟨ys, hys, hlen⟩ := collectM_some_exists (fun t => decodeTuple dec (mtuple t) S) _
+      (fun t _ => decodeTuple_catSchema dec hd (mtuple t) S hne hS)
+    refine ⟨ys, hys, ?_⟩
+    rw [hlen, length_map]
+    unfold HeapOf.live
+    rw [length_map]
+    congr 1
+    apply filter_congr
+    intro s _
+    simp only [Function.comp, Bool.not_true, Bool.false_or, formRow]
+    exact liveBits_formTuple _ _
+  · intro ts hts t ht
+    simp only [mem_map] at hts
+    obtain ⟨pg, hpg, rfl⟩ := hts
+    simp only [mem_map] at ht
+    obtain ⟨s, hs, rfl⟩ := ht
+    exact formTuple_WF _ _ (attr_WF l s.val s.infomask (attrWF_name (hw.rows s (by unfold HeapOf.versions; exact mem_flatten.mpr ⟨pg, hpg, hs⟩)).1)
+      (hw.rows s (by unfold HeapOf.versions; exact mem_flatten.mpr ⟨pg, hpg, hs⟩)).2)
 
 theorem live_mem_versions {α} (h : HeapOf α) (a : α) (ha : a ∈ h.live) : ∃ s ∈ h.versions, s.val = a := by
   unfold HeapOf.live at ha
   obtain ⟨s, hs, rfl⟩ := mem_map.mp ha
   exact ⟨s, (mem_filter.mp hs).1, rfl⟩
 
-/-! ### detectAttrSchema -/
+/-! ### the choice of the layout (dropped.go:readAttrRowsWithDropped) -/
 
-/-- the tool's probe: at least five live rows, and the first five carry attnum 1..5 (`Gen.autoDetectOK` on the 16 layout) -/
-def firstFiveOK (live : List AttrRow) : Bool :=
-  decide (live.length ≥ 5) && ((live.take 5).zipIdx.all fun (a, i) => a.num == (i : Int) + 1)
+/-- attstorage is one of PostgreSQL's four storage strategies: 'p', 'e', 'm', 'x' -/
+def StorageOK (a : AttrRow) : Prop := a.storage = 112 ∨ a.storage = 101 ∨ a.storage = 109 ∨ a.storage = 120
+instance (a : AttrRow) : Decidable (StorageOK a) := by unfold StorageOK; infer_instance
 
-theorem zipIdx_all_map (f : AttrRow → Row) : ∀ (l : List AttrRow) (k : Nat), (∀ a ∈ l, getInt (f a) "attnum" = a.num) →
-    ((l.map f).zipIdx k).all (fun (p : Row × Nat) => getInt p.1 "attnum" == (p.2 : Int) + 1) =
-      (l.zipIdx k).all (fun (p : AttrRow × Nat) => p.1.num == (p.2 : Int) + 1)
-  | [], _, _ => rfl
-  | a :: l, k, h => by
-    simp only [map_cons, zipIdx_cons, all_cons, h a (by simp)]
-    rw [zipIdx_all_map f l (k + 1) (fun x hx => h x (by simp [hx]))]
+theorem alignByte_csid (a : AttrRow) : catOneOfBytes [99, 115, 105, 100] [alignByte a] = true := by
+  unfold alignByte alignCh
+  split
+  · decide
+  · split
+    · decide
+    · split <;> decide
 
-theorem firstFive_map (f : AttrRow → Row) (live : List AttrRow) (h : ∀ a ∈ live, getInt (f a) "attnum" = a.num) :
-    firstFiveMatch (live.map f) = ((live.take 5).zipIdx.all fun (p : AttrRow × Nat) => p.1.num == (p.2 : Int) + 1) := by
-  unfold firstFiveMatch
-  rw [← map_take]
-  exact zipIdx_all_map f (live.take 5) 0 (fun a ha => h a (mem_of_mem_take ha))
+theorem alignByte_not_pemx (a : AttrRow) : catOneOfBytes [112, 101, 109, 120] [alignByte a] = false := by
+  unfold alignByte alignCh
+  split
+  · decide
+  · split
+    · decide
+    · split <;> decide
 
-theorem firstFive_false (f : AttrRow → Row) (a : AttrRow) (rest : List AttrRow) (h : getInt (f a) "attnum" ≠ 1) :
-    firstFiveMatch ((a :: rest).map f) = false := by
-  unfold firstFiveMatch
-  simp only [map_cons, take_succ_cons, zipIdx_cons, all_cons]
-  have : (getInt (f a) "attnum" == ((0 : Nat) : Int) + 1) = false := by simpa using h
-  rw [this]; rfl
+theorem storage_pemx (a : AttrRow) (h : StorageOK a) : catOneOfBytes [112, 101, 109, 120] [UInt8.ofNat a.storage] = true := by
+  rcases h with h | h | h | h <;> rw [h] <;> decide
 
-/-- when the schema choice of the tool is the right one: the hint agrees with the layout, or there is no hint and
-auto-detection works out — on a 16 layout the first five live rows carry attnum 1..5 (else finding A04), on a
-12–15 layout the first live row's attstattarget is one PostgreSQL accepts -/
+/-- a row read under its own layout is plausible when its attstorage is a legal one -/
+theorem plausible_own (row : Row) (a : AttrRow) (h : AttrFields row a) (hs : StorageOK a) : catPlausibleAttrRow row = true := by
+  unfold catPlausibleAttrRow
+  rw [h.align, h.storage, alignByte_csid, storage_pemx a hs]
+  rfl
+
+theorem score_all (f : AttrRow → Row) (as : List AttrRow) (h : ∀ a ∈ as, catPlausibleAttrRow (f a) = true) :
+    catAttrScore (as.map f) = as.length := by
+  unfold catAttrScore
+  rw [filter_eq_self.mpr, length_map]
+  intro r hr
+  obtain ⟨a, ha, rfl⟩ := mem_map.mp hr
+  exact h a ha
+
+theorem score_none (f : AttrRow → Row) (as : List AttrRow) (h : ∀ a ∈ as, catPlausibleAttrRow (f a) = false) :
+    catAttrScore (as.map f) = 0 := by
+  unfold catAttrScore
+  rw [filter_eq_nil_iff.mpr]
+  · rfl
+  · intro r hr
+    obtain ⟨a, ha, rfl⟩ := mem_map.mp hr
+    simp [h a ha]
+
+theorem score_le (rows : List Row) : catAttrScore rows ≤ rows.length := by
+  unfold catAttrScore
+  exact length_filter_le _ _
+
+theorem better_keep (best : List Row × Nat) (rows : List Row) (h : catAttrScore rows ≤ best.2) : catBetterRows best rows = best := by
+  unfold catBetterRows
+  rw [if_neg (by omega)]
+
+/-- the first layout under which every row is plausible takes over from an empty best -/
+theorem better_first (rows : List Row) (h : catAttrScore rows = rows.length) : catBetterRows ([], 0) rows = (rows, rows.length) := by
+  unfold catBetterRows
+  by_cases h0 : rows.length = 0
+  · have : rows = [] := length_eq_zero_iff.mp h0
+    subst this
+    rfl
+  · rw [if_pos (by simp only; omega), h]
+
+/-- when the layout is the right one: the hint names it (16+, 14–15, 12–13), or there is no hint and every live row's
+attstorage is one of PostgreSQL's four characters (true of every real pg_attribute; not stated by `Spec.Cluster.WF`) —
+then the automatic choice finds it whatever the rows are and in whatever order they come -/
 def SchemaOK (l : Layout) (att : HeapOf AttrRow) (ver : Nat) : Prop :=
-  (16 ≤ ver ∧ l = .v16) ∨ (12 ≤ ver ∧ ver < 16 ∧ l ≠ .v16) ∨
-  (ver < 12 ∧ ((l = .v16 ∧ firstFiveOK att.live = true) ∨
-               (l ≠ .v16 ∧ ∀ a, att.live.head? = some a → -65536 ≤ a.stattarget ∧ a.stattarget < 65536)))
+  (16 ≤ ver ∧ l = .v16) ∨ (14 ≤ ver ∧ ver < 16 ∧ l = .v14) ∨ (12 ≤ ver ∧ ver < 14 ∧ l = .v12) ∨
+  (ver < 12 ∧ ∀ a ∈ att.live, StorageOK a)
 
-theorem detect_enc (dec : Dec) (hd : CatDec dec) (l : Layout) (att : HeapOf AttrRow) (ver : Nat) (hw : AttHeapWF l att)
-    (hs : SchemaOK l att ver) :
-    detectAttrSchema (readRows dec) (encHeapOf (pgAttributeCols l) (attrVals l) att) (ver : Int) =
-      .ok (if l = .v16 then schemaPGAttrV16 else schemaPGAttrV15) := by
-  unfold detectAttrSchema
-  rcases hs with ⟨h1, h2⟩ | ⟨h1, h2, h3⟩ | ⟨h1, h2⟩
-  · rw [if_pos (by omega), if_pos h2]; rfl
-  · rw [if_neg (by omega), if_pos (by omega), if_neg h3]; rfl
-  · rw [if_neg (by omega), if_neg (by omega)]
-    rcases h2 with ⟨h2, h3⟩ | ⟨h2, h3⟩
-    · subst h2
-      rw [readRows_attr_B dec hd att hw]
-      simp only [ok_bind, length_map, if_true]
-      have hf := firstFive_map (fun a => toRow (attrRowB dec a)) att.live (fun a ha => by
-        obtain ⟨s, hs, rfl⟩ := live_mem_versions att a ha
-        exact (fields_B dec hd s.val (hw.rows s hs).1).num)
-      unfold firstFiveOK at h3
-      simp only [Bool.and_eq_true, decide_eq_true_eq] at h3
-      rw [if_pos ⟨h3.1, by rw [hf]; exact h3.2⟩]; rfl
-    · rw [readRows_attr_C dec hd l h2 att hw, if_neg h2]
-      simp only [ok_bind, length_map]
-      cases hlive : att.live with
-      | nil => simp
-      | cons a rest =>
-        have ha : a ∈ att.live := by rw [hlive]; simp
-        obtain ⟨s, hs, rfl⟩ := live_mem_versions att a ha
-        have := firstFive_false (fun a => toRow (attrRowC dec a)) s.val rest
-          (attnum_C dec hd s.val (h3 s.val (by rw [hlive]; rfl)))
-        rw [this]
-        simp
-
-theorem toolAlignByte_15 (l : Layout) (hl : l ≠ .v16) : toolAlignByte l = fun _ => b3 (ofSigned 32 (-1)) := by
+/-- **The automatic choice picks the layout the file is in**, for every pg_attribute heap of legal storage characters:
+under its own layout every live row is plausible; a 12–15 file read as 16 has no plausible row (attalign = 0xFF), a
+12–13 file read as 14–15 has none either (attstorage = the attalign character); a layout tried later never beats one
+under which every row is plausible. -/
+theorem auto_enc (dec : Dec) (hd : CatDec dec) (l : Layout) (att : HeapOf AttrRow) (hw : AttHeapWF l att)
+    (hst : ∀ a ∈ att.live, StorageOK a) :
+    catReadAttrRowsAuto (readRows dec) (encHeapOf (pgAttributeCols l) (attrVals l) att) = .ok (att.live.map (attrRowOf dec l)) := by
+  have hwf : ∀ a ∈ att.live, AttrWF a := by
+    intro a ha
+    obtain ⟨s, hs, rfl⟩ := live_mem_versions att a ha
+    exact (hw.rows s hs).1
+  have hown : catAttrScore (att.live.map (attrRowOf dec l)) = (att.live.map (attrRowOf dec l)).length := by
+    rw [score_all _ _ (fun a ha => plausible_own _ a (fields_of dec hd l a (hwf a ha)) (hst a ha)), length_map]
+  unfold catReadAttrRowsAuto
   cases l
-  · rfl
-  · rfl
-  · exact absurd rfl hl
+  · -- 12–13
+    obtain hD := readRows_attr_D dec hd .v12 (by decide) att hw
+    obtain hE := readRows_attr_E dec hd att hw
+    obtain hO := readRows_attr_own dec hd .v12 att hw
+    rw [hD, hE]
+    simp only [ok_bind]
+    rw [show catSchemaAttr12 = schemaOf .v12 from rfl, hO]
+    simp only [ok_bind, pure_eq_ok]
+    have s16 : catAttrScore (att.live.map fun a => toRow (attrRowD dec .v12 a)) = 0 :=
+      score_none _ _ (fun a _ => by
+        unfold catPlausibleAttrRow
+        rw [align_D dec hd .v12 (by decide) a]
+        rfl)
+    have s15 : catAttrScore (att.live.map fun a => toRow (attrRowE dec a)) = 0 :=
+      score_none _ _ (fun a _ => by
+        unfold catPlausibleAttrRow
+        rw [storage_E dec hd a, alignByte_not_pemx]
+        simp)
+    have e1 : catBetterRows ([], 0) (att.live.map fun a => toRow (attrRowD dec .v12 a)) = ([], 0) :=
+      better_keep _ _ (by rw [s16]; exact Nat.zero_le _)
+    have e2 : catBetterRows ([], 0) (att.live.map fun a => toRow (attrRowE dec a)) = ([], 0) :=
+      better_keep _ _ (by rw [s15]; exact Nat.zero_le _)
+    rw [e1, e2, better_first _ hown]
+  · -- 14–15
+    obtain hD := readRows_attr_D dec hd .v14 (by decide) att hw
+    obtain hO := readRows_attr_own dec hd .v14 att hw
+    obtain ⟨r12, h12, hl12⟩ := readRows_attr_any dec hd .v14 att hw catSchemaAttr12 schema12_ne schema12_cat
+    rw [hD]
+    simp only [ok_bind]
+    rw [show catSchemaAttr14 = schemaOf .v14 from rfl, hO, h12]
+    simp only [ok_bind, pure_eq_ok]
+    have s16 : catAttrScore (att.live.map fun a => toRow (attrRowD dec .v14 a)) = 0 :=
+      score_none _ _ (fun a _ => by
+        unfold catPlausibleAttrRow
+        rw [align_D dec hd .v14 (by decide) a]
+        rfl)
+    have e1 : catBetterRows ([], 0) (att.live.map fun a => toRow (attrRowD dec .v14 a)) = ([], 0) :=
+      better_keep _ _ (by rw [s16]; exact Nat.zero_le _)
+    have e3 : catBetterRows (att.live.map (attrRowOf dec .v14), (att.live.map (attrRowOf dec .v14)).length) r12 =
+        (att.live.map (attrRowOf dec .v14), (att.live.map (attrRowOf dec .v14)).length) :=
+      better_keep _ _ (by have := score_le r12; simp only [length_map]; omega)
+    rw [e1, better_first _ hown, e3]
+  · -- 16
+    obtain hO := readRows_attr_own dec hd .v16 att hw
+    obtain ⟨r15, h15, hl15⟩ := readRows_attr_any dec hd .v16 att hw catSchemaAttr14 schema14_ne schema14_cat
+    obtain ⟨r12, h12, hl12⟩ := readRows_attr_any dec hd .v16 att hw catSchemaAttr12 schema12_ne schema12_cat
+    rw [show catSchemaAttr16 = schemaOf .v16 from rfl, hO, h15, h12]
+    simp only [ok_bind, pure_eq_ok]
+    have e2 : catBetterRows (att.live.map (attrRowOf dec .v16), (att.live.map (attrRowOf dec .v16)).length) r15 =
+        (att.live.map (attrRowOf dec .v16), (att.live.map (attrRowOf dec .v16)).length) :=
+      better_keep _ _ (by have := score_le r15; simp only [length_map]; omega)
+    have e3 : catBetterRows (att.live.map (attrRowOf dec .v16), (att.live.map (attrRowOf dec .v16)).length) r12 =
+        (att.live.map (attrRowOf dec .v16), (att.live.map (attrRowOf dec .v16)).length) :=
+      better_keep _ _ (by have := score_le r12; simp only [length_map]; omega)
+    rw [better_first _ hown, e2, e3]
 
-/-- **ParsePGAttribute on an encoded pg_attribute**, every layout: under the right schema choice the map it returns
+/-- **catalog.go:readAttrRows on an encoded pg_attribute**: the live rows under the file's own layout, hinted or not -/
+theorem readAttrRows_enc (dec : Dec) (hd : CatDec dec) (l : Layout) (att : HeapOf AttrRow) (ver : Nat) (hw : AttHeapWF l att)
+    (hs : SchemaOK l att ver) :
+    readAttrRows (readRows dec) (encHeapOf (pgAttributeCols l) (attrVals l) att) (ver : Int) = .ok (att.live.map (attrRowOf dec l)) := by
+  unfold readAttrRows
+  rcases hs with ⟨h1, h2⟩ | ⟨h1, h2, h3⟩ | ⟨h1, h2, h3⟩ | ⟨h1, h2⟩
+  · subst h2
+    rw [if_pos (by omega)]
+    exact readRows_attr_own dec hd .v16 att hw
+  · subst h3
+    rw [if_neg (by omega), if_pos (by omega)]
+    exact readRows_attr_own dec hd .v14 att hw
+  · subst h3
+    rw [if_neg (by omega), if_neg (by omega), if_pos (by omega)]
+    exact readRows_attr_own dec hd .v12 att hw
+  · rw [if_neg (by omega), if_neg (by omega), if_neg (by omega)]
+    exact auto_enc dec hd l att hw h2
+
+/-- **ParsePGAttribute on an encoded pg_attribute**, every layout, hinted or chosen automatically: the map it returns
 holds, for every relation oid, the live attributes with attnum > 0 in attnum order, each with its catalog name, type
-oid, attnum and attlen — and, as `Align`, the byte the tool takes for attalign (`toolAlignByte`, finding A03). -/
+oid, attnum, attlen and — as `Align` — its attalign character. -/
 theorem parsePGAttribute_enc (dec : Dec) (hd : CatDec dec) (l : Layout) (att : HeapOf AttrRow) (ver : Nat) (hw : AttHeapWF l att)
     (hs : SchemaOK l att ver) (hnd : (att.live.map fun a => (a.relid, a.num)).Nodup) :
     ∃ m, parsePGAttribute (readRows dec) (encHeapOf (pgAttributeCols l) (attrVals l) att) (ver : Int) = .ok m ∧
-      ∀ k, 0 < k → (mapGet m k).getD [] = (userAttrs att k).map (attrInfoOf (toolAlignByte l)) := by
+      ∀ k, 0 < k → (mapGet m k).getD [] = (userAttrs att k).map attrInfoOf := by
   unfold parsePGAttribute
-  rw [detect_enc dec hd l att ver hw hs]
+  rw [readAttrRows_enc dec hd l att ver hw hs]
   simp only [ok_bind]
-  by_cases hl : l = .v16
-  · subst hl
-    rw [if_pos rfl, readRows_attr_B dec hd att hw]
-    refine ⟨_, rfl, ?_⟩
-    intro k hk
-    rw [mapGet_map_sort sortByNum rfl,
-      foldl_attrStep_get (fun a => toRow (attrRowB dec a)) (toolAlignByte .v16) att.live ?_ [] k hk]
-    · simp only [mapGet, lookup_nil, Option.getD_none, nil_append]
-      exact grouped_sorted _ att.live k hnd
-    · intro a ha
-      obtain ⟨s, hs, rfl⟩ := live_mem_versions att a ha
-      exact fields_B dec hd s.val (hw.rows s hs).1
-  · rw [if_neg hl, readRows_attr_A dec hd l hl att hw]
-    refine ⟨_, rfl, ?_⟩
-    intro k hk
-    rw [mapGet_map_sort sortByNum rfl,
-      foldl_attrStep_get (fun a => toRow (attrRowA dec a)) (toolAlignByte l) att.live ?_ [] k hk]
-    · simp only [mapGet, lookup_nil, Option.getD_none, nil_append]
-      exact grouped_sorted _ att.live k hnd
-    · intro a ha
-      obtain ⟨s, hs, rfl⟩ := live_mem_versions att a ha
-      rw [toolAlignByte_15 l hl]
-      exact fields_A dec hd s.val (hw.rows s hs).1
+  refine ⟨_, rfl, ?_⟩
+  intro k hk
+  rw [mapGet_map_sort sortByNum rfl, foldl_attrStep_get (attrRowOf dec l) att.live ?_ [] k hk]
+  · simp only [mapGet, lookup_nil, Option.getD_none, nil_append]
+    exact grouped_sorted att.live k hnd
+  · intro a ha
+    obtain ⟨s, hs, rfl⟩ := live_mem_versions att a ha
+    exact fields_of dec hd l s.val (hw.rows s hs).1
 
 end PgVerif.Proofs.Cluster
